@@ -1,5 +1,7 @@
 (* MgrRun.v — case decoder for the Manager.Allocate harness (harness/mgr).
-   case = [nr; acc_1..acc_nr; nev; ev*]  with ev = 1 req kind | 2     (acc_i = backend that accepts request i, 0 none)
+   case = [nr; acc_1..acc_nr; early; nev; ev*]  with ev = 1 req kind | 2 | 3 req kind taken
+   (acc_i = backend that accepts request i, 0 none; early = request answered while the dispatch loop is at the next one, 0 none;
+    3 = answer and cancellation in one instant, taken = observed: the manager took the answer)
    output = [failed; n; returned sorted..; m; owned after roll-back sorted..] *)
 From Coq Require Import ZArith List Bool.
 From TV Require Import Codec MgrModel.
@@ -10,6 +12,7 @@ Fixpoint dec_evs (n : nat) (l : list Z) : list ev :=
   match n, l with
   | S n', 1 :: r :: k :: t => EAns r k :: dec_evs n' t
   | S n', 2 :: t => ECancel :: dec_evs n' t
+  | S n', 3 :: r :: k :: tk :: t => EAnsCancel r k (dec_bool tk) :: dec_evs n' t
   | _, _ => []
   end.
 
@@ -17,21 +20,21 @@ Fixpoint insert (x : Z) (l : list Z) : list Z :=
   match l with [] => [x] | y :: t => if x <=? y then x :: l else y :: insert x t end.
 Definition sortZ (l : list Z) : list Z := fold_right insert [] l.
 
-Definition dec_mgr (i : list Z) : option (list Z * list ev) :=
+Definition dec_mgr (i : list Z) : option (list Z * Z * list ev) :=
   match i with
   | nr :: r =>
       let acc := firstn (Z.to_nat nr) r in
       match skipn (Z.to_nat nr) r with
-      | nev :: t => Some (acc, dec_evs (Z.to_nat nev) t)
-      | [] => None
+      | early :: nev :: t => Some (acc, early, dec_evs (Z.to_nat nev) t)
+      | _ => None
       end
   | [] => None
   end.
 
 Definition run_mgr (i : list Z) : list Z :=
   match dec_mgr i with
-  | Some (acc, evs) =>
-      let s := run acc evs in
+  | Some (acc, early, evs) =>
+      let s := run acc early evs in
       (if failed s then 1 else 0) :: enc_list (sortZ (got s)) ++ enc_list (sortZ (owned_after s))
   | None => bad
   end.
